@@ -311,6 +311,12 @@ def gen(ctx):
     # capacity 2 filled by two such clients, released, refilled: a slot lost to either shows as a blocked get
     for x, y in (("l", "n"), ("m", "6"), ("u", "l"), ("n", "m")):
         add(2, "O%s,O%s,c0,d1,Q%s,O%s,o,c3,c4,e" % (x, y, x, y), "offer-shape-fill-release-refill")
+    # the session description the peer connection cannot be made from differs with the session's index (driver: unparsable
+    # offer, then a well-formed answer, provisional answer, rollback): every kind, at capacity 1 so that one lost slot
+    # blocks the next get, and overlapping an open session
+    add(1, "p,p,p,p,e,p,p,p,p,o,c9", "unusable-description-kinds")
+    add(2, "o,p,p,p,p,p,p,p,c0,e", "unusable-description-kinds")
+    add(0, "p,p,p,p,e", "unusable-description-kinds")
     # every ordered pair of exit-path classes (one representative each), overlapping an open session
     reps = ["e", "u", "b", "r", "R", "p", "a", "g", "q", "o", "A"]
     for x in reps:
